@@ -129,6 +129,10 @@ func c11Ignored(r *Run) {
 					}
 					in := fmt.Sprintf("ignored-run form=%d n=%d key=%d total=%d seq=%d pre=%v post=%v wire=%v", form, n, rm, tm, km, c.Pre, c.Post, wire)
 					r.Count(in, true, fmt.Sprintf("run of ignored segments on one combiner/n=%s", bucketK(n)))
+					if cls := fmt.Sprintf("combiner-panic/ignored-run/key=%d,total=%d", rm, tm); obs.PanicAt >= 0 && r.failSeen[cls] >= 2 {
+						r.failSeen[cls]++
+						continue
+					}
 					if obs.PanicAt >= 0 {
 						small := shrinkHistory(table, hist, "combine/panic")
 						t, h := compactHistory(table, small)
